@@ -888,8 +888,92 @@ func c14Cycles() []c14Scenario {
 	} {
 		out = append(out, extra)
 	}
+	// every statement in every body: most placements are not YANG, some are and mean nothing there
+	// (config below rpc input); each is one load
+	for _, b := range c14Bodies {
+		for _, st := range c14Statements {
+			out = append(out, c14Scenario{"placement/" + strings.Fields(st)[0] + "-" + strings.Trim(strings.Fields(st + " -")[1], `";{}`) + "-in-" + b[0], c14PlaceHdr + strings.Replace(b[1], "%s", st, 1) + " }", nil})
+		}
+	}
 	c14CyclesCache = out
 	return out
+}
+
+const c14PlaceHdr = `module pl { yang-version 1.1; namespace "urn:pl"; prefix pl; revision 0; feature f; grouping g0 { leaf g0l { type string; } } identity b0; `
+
+var c14Bodies = [][2]string{
+	{"module", `%s`},
+	{"container", `container c { %s }`},
+	{"leaf", `leaf a { type string; %s }`},
+	{"leaf-list", `leaf-list a { type string; %s }`},
+	{"list", `list l { key k; leaf k { type string; } %s }`},
+	{"choice", `choice ch { leaf a { type string; } %s }`},
+	{"case", `choice ch { case x { leaf a { type string; } %s } }`},
+	{"anydata", `anydata d { %s }`},
+	{"anyxml", `anyxml d { %s }`},
+	{"rpc", `rpc r { %s }`},
+	{"input", `rpc r { input { leaf a { type string; } %s } }`},
+	{"output", `rpc r { output { leaf a { type string; } %s } }`},
+	{"leaf-in-input", `rpc r { input { leaf a { type string; %s } } }`},
+	{"leaf-in-output", `rpc r { output { leaf a { type string; %s } } }`},
+	{"container-in-input", `rpc r { input { container c { %s } } }`},
+	{"list-in-output", `rpc r { output { list l { %s } } }`},
+	{"choice-in-input", `rpc r { input { choice ch { leaf a { type string; } %s } } }`},
+	{"action", `container c { action a { %s } }`},
+	{"leaf-in-action-input", `container c { action a { input { leaf a { type string; %s } } } }`},
+	{"leaf-in-action-below-config-false", `container c { config false; action a { input { leaf a { type string; %s } } } }`},
+	{"notification", `notification n { %s }`},
+	{"leaf-in-notification", `notification n { leaf a { type string; %s } }`},
+	{"leaf-in-notification-in-list", `list l { key k; leaf k { type string; } notification n { leaf a { type string; %s } } }`},
+	{"grouping", `grouping g { %s } uses g;`},
+	{"leaf-of-grouping-used-in-input", `grouping g { leaf a { type string; %s } } rpc r { input { uses g; } }`},
+	{"leaf-of-grouping-used-below-config-false", `grouping g { leaf a { type string; %s } } container c { config false; uses g; }`},
+	{"typedef", `typedef t { type string; %s } leaf a { type t; }`},
+	{"identity", `identity i { %s }`},
+	{"feature", `feature f2 { %s }`},
+	{"extension", `extension e { %s }`},
+	{"augment", `container c { } augment "/c" { leaf a { type string; } %s }`},
+	{"leaf-augmented-into-input", `rpc r { input { leaf i { type string; } } } augment "/r/input" { leaf a { type string; %s } }`},
+	{"leaf-augmented-below-config-false", `container c { config false; } augment "/c" { leaf a { type string; %s } }`},
+	{"uses", `grouping g { leaf a { type string; } } uses g { %s }`},
+	{"refine", `grouping g { leaf a { type string; } } uses g { refine a { %s } }`},
+	{"refine-in-input", `grouping g { leaf a { type string; } } rpc r { input { uses g { refine a { %s } } } }`},
+	{"refine-container", `grouping g { container a { } } uses g { refine a { %s } }`},
+	{"refine-list", `grouping g { list a { key k; leaf k { type string; } } } uses g { refine a { %s } }`},
+	{"refine-choice", `grouping g { choice a { leaf x { type string; } } } uses g { refine a { %s } }`},
+	{"deviate-add-in-input", `rpc r { input { leaf a { type string; } } } deviation "/r/input/a" { deviate add { %s } }`},
+	{"deviate-replace-in-input", `rpc r { input { leaf a { type string; } } } deviation "/r/input/a" { deviate replace { %s } }`},
+	{"deviate-add-on-container", `container c { } deviation "/c" { deviate add { %s } }`},
+	{"deviate-add-on-choice", `choice ch { leaf a { type string; } } deviation "/ch" { deviate add { %s } }`},
+	{"deviate-replace-on-list", `list l { key k; leaf k { type string; } } deviation "/l" { deviate replace { %s } }`},
+	{"deviate-delete-on-leaf", `leaf a { type string; } deviation "/a" { deviate delete { %s } }`},
+	{"deviation", `leaf a { type string; } deviation "/a" { %s }`},
+	{"type", `leaf a { type string { %s } }`},
+	{"type-int", `leaf a { type int32 { %s } }`},
+	{"type-union", `leaf a { type union { type string; %s } }`},
+	{"type-leafref", `leaf b { type string; } leaf a { type leafref { path "../b"; %s } }`},
+	{"type-identityref", `leaf a { type identityref { base b0; %s } }`},
+	{"enum", `leaf a { type enumeration { enum x { %s } } }`},
+	{"bit", `leaf a { type bits { bit x { %s } } }`},
+	{"range", `leaf a { type int32 { range "1..2" { %s } } }`},
+	{"length", `leaf a { type string { length "1..2" { %s } } }`},
+	{"pattern", `leaf a { type string { pattern "a" { %s } } }`},
+	{"must", `leaf a { type string; must "1" { %s } }`},
+	{"when", `leaf a { type string; when "1" { %s } }`},
+	{"revision", `revision 2001-01-01 { %s }`},
+	{"extension-use", `extension e { argument x; } pl:e "v" { %s }`},
+}
+
+var c14Statements = []string{
+	`config true;`, `config false;`, `mandatory true;`, `mandatory false;`, `default "x";`, `units "u";`, `status current;`, `status obsolete;`,
+	`when "1";`, `must "1";`, `if-feature f;`, `if-feature nope;`, `presence "p";`, `min-elements 1;`, `max-elements 2;`, `max-elements unbounded;`, `ordered-by user;`,
+	`key "k";`, `unique "k";`, `description "d";`, `reference "r";`, `type string;`, `type nope;`, `leaf z { type string; }`, `leaf-list z { type string; }`, `container z { }`,
+	`list z { key k; leaf k { type string; } }`, `uses g0;`, `uses nope;`, `action z { }`, `notification z { }`, `rpc z { }`, `choice z { }`, `case z { }`, `anydata z;`,
+	`typedef z { type string; }`, `grouping z { }`, `identity z;`, `feature z;`, `extension z;`, `augment "/c" { }`, `refine a { }`, `deviate not-supported;`,
+	`error-message "m";`, `error-app-tag "t";`, `position 1;`, `value 1;`, `fraction-digits 2;`, `length "1";`, `range "1";`, `pattern "a";`, `path "../a";`, `base b0;`, `base nope;`,
+	`require-instance true;`, `enum z;`, `bit z;`, `modifier invert-match;`, `prefix z;`, `namespace "urn:z";`, `yang-version 1.1;`, `contact "c";`, `organization "o";`,
+	`revision-date 2020-01-01;`, `revision 2020-01-01;`, `argument a;`, `yin-element true;`, `input { }`, `output { }`, `belongs-to z { prefix z; }`, `import z { prefix z; }`, `include z;`,
+	`pl:nope;`, `nope:nope "x";`,
 }
 
 type failingReader struct {
